@@ -19,6 +19,11 @@ R.model("AvpGenDef", fields={"type_class": "Opt[Any:contclass]"})
 _prev_get = R.specfns.get("getattr_dyn")
 
 
+def _is_open(ex, cls):
+    """objects whose attribute set is not fixed by their class (the model says open_attrs)"""
+    return any(getattr(ex.reg.models.get(n), "open_attrs", False) for n in ex.class_names_mro(cls))
+
+
 def _tok_of(ex, val):
     """(is-None flag, integer token) of a value stored into the open attribute store: object references and opaque
     values are their own tokens; anything else (not stored by the functions under contract) is refused"""
@@ -46,7 +51,7 @@ def _getattr_dyn(ex, st, v, name, k, where):
     """getattr(obj, <computed name>) on an attribute container: AttributeError when absent, else the stored value
     (None or a token) - a select on the open attribute store"""
     vv = ex.unwrap(v)
-    if isinstance(vv, VRef) and vv.cls == "AvpGenerator":
+    if isinstance(vv, VRef) and _is_open(ex, vv.cls):
         has, isnone, tok = ex.open_read(st, vv.t, ex.unwrap(name).t)
         outs = ex.raise_(st.assume(Not(has)), "AttributeError", where)
         s2 = st.assume(has)
@@ -64,6 +69,25 @@ def _own_list(ex, st, obj_t, tok):
     from pyvc.smt import Implies, And, Lt
     ex.decls.fun("tok_isinst", [INT, INT], BOOL)
     return Implies(app("tok_isinst", BOOL, tok, ex.class_id("list")), And(Lt(obj_t, tok), Lt(tok, st.alloc)))
+
+
+@R.specfn("own_attr")
+def _own_attr(ex, st, obj, name):
+    """ownership instance for one attribute of a container (see _own_list)"""
+    o = ex.unwrap(obj)
+    return VBool(_own_list(ex, st, o.t, ex.open_read(st, o.t, ex.unwrap(name).t)[2]))
+
+
+@R.specfn("own_attr_not")
+def _own_attr_not(ex, st, obj, name, lst):
+    """ownership instance: a list held in the named attribute of the container is owned by the container - younger than it
+    and not the given other list (the AVP list being exposed)"""
+    from pyvc.smt import Implies, And, Ne
+    o = ex.unwrap(obj)
+    tok = ex.open_read(st, o.t, ex.unwrap(name).t)[2]
+    ex.decls.fun("tok_isinst", [INT, INT], BOOL)
+    return VBool(And(_own_list(ex, st, o.t, tok),
+                     Implies(app("tok_isinst", BOOL, tok, ex.class_id("list")), Ne(tok, ex.unwrap(lst).t))))
 
 
 @R.specfn("own_list")
@@ -93,7 +117,7 @@ def _tok_or0(ex, st, v):
 @R.specfn("tok_is")
 def _tok_is(ex, st, tok, lst):
     from pyvc.smt import Eq
-    return VBool(Eq(ex.num(ex.unwrap(tok)), ex.unwrap(lst).t))
+    return VBool(Eq(ex.unwrap(tok).t, ex.unwrap(lst).t))
 
 
 @R.specfn("setattr_dyn")
@@ -102,10 +126,17 @@ def _setattr_dyn(ex, st, v, name, val, k, where):
     attribute exists afterwards and holds the value; every other attribute of every object is unchanged); raises
     nothing (ASSUMED: containers define no __setattr__/__slots__ - ground rows C03.T check they are plain dataclasses)"""
     vv = ex.unwrap(v)
-    if not (isinstance(vv, VRef) and vv.cls == "AvpGenerator"):
+    if not (isinstance(vv, VRef) and _is_open(ex, vv.cls)):
         raise Unsupported(f"setattr with a computed name on {vv!r} at {where}")
     isnone, tok = _tok_of(ex, val)
-    return k(ex.open_write(st, vv.t, ex.unwrap(name).t, isnone, tok), VNone)
+    s2 = ex.open_write(st, vv.t, ex.unwrap(name).t, isnone, tok)
+    from pyvc.values import VList
+    if isinstance(val, (VList, VRef)):
+        # a token that denotes a list object is a list for later isinstance tests on the token; an object of a class is not
+        ex.decls.fun("tok_isinst", [INT, INT], BOOL)
+        f = app("tok_isinst", BOOL, tok, ex.class_id("list"))
+        s2.pc.append(f if isinstance(val, VList) else Not(f))
+    return k(s2, VNone)
 
 
 @R.specfn("call_opaque_contclass")
@@ -163,7 +194,7 @@ def _gen_is_list(ex, st, obj, name):
 def _tok_items(ex, st, tok):
     """the elements of the list an attribute token denotes (a list of opaque values)"""
     from pyvc.values import VList, VSeq, K_ANY
-    return VSeq(ex.seq_items(st, VList(ex.num(ex.unwrap(tok)), K_ANY)), K_ANY)
+    return VSeq(ex.seq_items(st, VList(ex.unwrap(tok).t, K_ANY)), K_ANY)
 
 
 @R.specfn("avp_key")
@@ -304,6 +335,15 @@ R.contract("Avp.new", trusted=True,
 R.contract("Avp.value.fset", trusted=True, params={"self": "Avp", "new_value": "Any"},
            raises=[Raise("AvpEncodeError", "True", "may")], modifies=["self.payload", "self._avps"],
            note="behavioural contract of the polymorphic value setter: only payload/_avps change, only AvpEncodeError")
+@R.specfn("is_prefix")
+def _is_prefix(ex, st, a, b):
+    """a is a prefix of b (sequences): b[0:len(a)] == a and len(b) >= len(a), as the native sequence predicate"""
+    from pyvc.smt import T
+    ta, _ = ex.as_seq(st, ex.unwrap(a))
+    tb, _ = ex.as_seq(st, ex.unwrap(b))
+    return VBool(T(f"(seq.prefixof {ta.s} {tb.s})", BOOL))
+
+
 R.macro("attr_set", ["o", "row"], "gen_has(o, row.attr_name) and not gen_none(o, row.attr_name)")
 R.macro("row_avp", ["a", "row"],
         "a.code == row.avp_code and a._vendor_id == row.vendor_id and "
@@ -319,7 +359,7 @@ R.contract("generate_avps_from_defs", params={"obj": "AvpGenerator", "strict": "
            modifies=["*Avp.payload", "*Avp._avps"], props=["C03"],
            note="only ValueError (strict mode / unknown AVP) and AvpEncodeError escape; what each row contributes is the step "
                 "clause of the loop over the rows")
-_GROW = "items(avp_list)[0:prev(len(avp_list))] == prev(items(avp_list)) and len(avp_list) >= prev(len(avp_list))"
+_GROW = "is_prefix(prev(items(avp_list)), items(avp_list))"
 R.loop("generate_avps_from_defs", 0,
        ghost={"j": "int"},
        invariants=[("list-is-new", "fresh(avp_list)")],
@@ -337,8 +377,130 @@ for _o in (1, 2):
     R.loop("generate_avps_from_defs", _o,
            entry_snap={"n_in": "len(avp_list)", "items_in": "items(avp_list)"},
            invariants=[("list-is-new", "fresh(avp_list)"),
-                       ("avps-emitted-before-this-row-stay", "items(avp_list)[0:n_in] == items_in and len(avp_list) >= n_in"),
+                       ("avps-emitted-before-this-row-stay", "is_prefix(items_in, items(avp_list)) and len(avp_list) >= n_in"),
                        ("avps-emitted-for-this-row-carry-its-code-vendor-and-m-flag",
                         "implies(n_in <= j and j < len(avp_list), row_avp(avp_list[j], gen_def))")],
            modifies=["list:avp_list", "*Avp.payload", "*Avp._avps"],
            local_kinds={"grouped_avp": "Avp", "single_avp": "Avp", "sub_avps": "List[Avp]", "value": "Any"})
+
+
+# ---- untyped commands: UndefinedMessage._assign_attr_values (C03 last sentence, C04) -------------------------------------
+R.model("UndefinedGroupedAvp", fields={}, open_attrs=True)
+R.model("UndefinedMessage", fields={}, open_attrs=True)
+R.object_invariant("Avp", "not is_none(self.name)")
+R.assume("class invariant Avp.name is not None: established by Avp.__init__ ('Unknown'), kept by from_unpacker and Avp.new "
+         "(their `name` clauses, proved), no other writer of the attribute in the package (ground obligation "
+         "C04.struct.avp-name-writers)")
+
+
+@R.specfn("undef_name")
+def _undef_name(ex, st, a):
+    """the attribute name an untyped command uses for an AVP: avp.name.replace('-', '_').lower() (same uninterpreted
+    string functions the engine uses for the real expression)"""
+    import re as _re
+    from pyvc.models import _ufun
+    from pyvc.values import VStr
+    a = ex.unwrap(a)
+    nm = ex.read_field(st, a, "name")
+    nm = nm.inner if isinstance(nm, VOpt) else nm
+    fname = "str_replace$" + _re.sub(r"[^A-Za-z0-9]", lambda m: f"x{ord(m.group(0)):02x}", "-" + "$" + "_")
+    return R.specfns["lower"](ex, st, VStr(_ufun(ex, fname, [STR], STR, nm.t)))
+
+
+@R.specfn("tok_type_is")
+def _tok_type_is(ex, st, tok, cname):
+    """the token denotes an object whose class is exactly `cname`"""
+    from pyvc.smt import Eq
+    return VBool(Eq(ex.type_of(st, ex.unwrap(tok).t), ex.class_id(cname.lit)))
+
+
+@R.specfn("tok_new")
+def _tok_new(ex, st, tok, frontier):
+    """the token denotes an object allocated at or after the given allocation frontier"""
+    from pyvc.smt import Le
+    return VBool(Le(ex.unwrap(frontier).t, ex.unwrap(tok).t))
+
+
+@R.specfn("frontier")
+def _frontier(ex, st):
+    from pyvc.values import VInt
+    return VInt(st.alloc)
+
+
+R.contract("UndefinedMessage._produce_attr_name", params={"self": "UndefinedMessage", "avp": "Avp"}, returns="str",
+           ensures=[("lower-case-underscore-normalised-name", "result == undef_name(avp)")],
+           raises=[], props=["C03", "C04"])
+R.kind_hints[("UndefinedMessage._assign_attr_values", "[1]")] = "List[Any]"
+_N = "undef_name(cur)"
+_ISL = f"gen_has(parent, {_N}) and not gen_none(parent, {_N}) and gen_is_list(parent, {_N})"
+_T = f"gen_tok(parent, {_N})"
+_PL = f"prev({_T})"
+_VAL = ("ite(isinstance(cur, AvpGrouped), tok_type_is(X, 'UndefinedGroupedAvp') and tok_new(X, prev(frontier())), "
+        "X == prev(value_tok(cur)))")
+R.contract("UndefinedMessage._assign_attr_values",
+           params={"self": "UndefinedMessage", "parent": "UndefinedGroupedAvp", "avps": "List[Avp]"},
+           ghost={"g": "int"},
+           ensures=[("lists-older-than-the-parent-are-untouched",
+                     "implies(0 < g and g < ref(parent), tok_items(g) == old(tok_items(g)))"),
+                    ("the-avp-list-itself-is-unchanged", "items(avps) == old(items(avps))")],
+           raises=[Raise("AvpDecodeError", "len(avps) > 0", "only_if")],
+           ensures_exc={"AvpDecodeError": [("lists-older-than-the-parent-are-untouched-when-decoding-fails",
+                                            "implies(0 < g and g < ref(parent), tok_items(g) == old(tok_items(g)))")]},
+           modifies=["open:parent", "*list:Any", "*Avp._avps"], props=["C03", "C04"],
+           note="every received AVP is exposed under its normalised name (step contract of the loop): first occurrence as the "
+                "value itself, a repetition turns the attribute into a list in wire order, a grouped AVP becomes a new nested "
+                "object filled by the recursive call; nothing but AvpDecodeError escapes.  `parent` is declared as the plain "
+                "container class; the message itself is passed for it at the top level (same operations: computed-name "
+                "hasattr/getattr/setattr; ground obligation C03.U0: no normalised dictionary name is an attribute of Message)")
+R.contracts["UndefinedMessage._assign_attr_values"].call_overrides = {"Avp.value": R.contracts["Avp.value#tok"]}
+R.contracts["UndefinedMessage._assign_attr_values"].ghost_bind = {
+    "UndefinedMessage._assign_attr_values": {"g": ["g", "gen_tok(parent, attr_name)", "ref(avps)"]}}
+R.loop("UndefinedMessage._assign_attr_values", 0,
+       ghost={"nm": "str"},
+       hints=["own_attr_not(parent, undef_name(cur), avps)"],
+       invariants=[("lists-older-than-the-parent-are-untouched",
+                    "implies(0 < g and g < ref(parent), tok_items(g) == old(tok_items(g)))"),
+                   ("the-avp-list-itself-is-unchanged", "items(avps) == old(items(avps))")],
+       step=[("a-first-occurrence-becomes-the-attribute-named-after-the-avp",
+              f"implies(prev(not gen_has(parent, {_N})), gen_has(parent, {_N}) and not gen_none(parent, {_N}) and "
+              + _VAL.replace("X", _T) + ")"),
+             ("a-repeated-avp-is-appended-at-the-end-of-the-attributes-list",
+              f"implies(prev({_ISL}), {_T} == {_PL} and len(tok_items({_PL})) == prev(len(tok_items({_T}))) + 1 and "
+              f"tok_items({_PL})[0:len(tok_items({_PL})) - 1] == prev(tok_items({_T})) and "
+              + _VAL.replace("X", f"tok_items({_PL})[len(tok_items({_PL})) - 1]") + ")"),
+             ("a-second-occurrence-turns-the-attribute-into-the-list-of-both-values-in-wire-order",
+              f"implies(prev(gen_has(parent, {_N}) and not ({_ISL})), gen_has(parent, {_N}) and not gen_none(parent, {_N}) "
+              f"and tok_new({_T}, prev(frontier())) and len(tok_items({_T})) == 2 and "
+              f"tok_items({_T})[0] == prev(ite(gen_none(parent, {_N}), none_tok(), gen_tok(parent, {_N}))) and "
+              + _VAL.replace("X", f"tok_items({_T})[1]") + ")"),
+             ("no-other-attribute-of-the-parent-changes",
+              f"implies(nm != {_N}, gen_has(parent, nm) == prev(gen_has(parent, nm)) and "
+              "gen_none(parent, nm) == prev(gen_none(parent, nm)) and gen_tok(parent, nm) == prev(gen_tok(parent, nm)))")],
+       modifies=["open:parent", "*list:Any", "*Avp._avps"],
+       local_kinds={"attr_name": "str", "value": "Any", "existing_attr": "Opt[Any]"})
+
+from . import family  # noqa  (the generated __post_init__ family and the assumed variant this one replaces)
+R.contract("UndefinedMessage.__post_init__", params={"self": "UndefinedMessage"},
+           ghost={"g": "int"},
+           raises=[Raise("AvpDecodeError", "len(self._avps) > 0", "only_if")],
+           ensures_exc={"AvpDecodeError": [("lists-older-than-the-message-are-untouched-when-decoding-fails",
+                                            "implies(0 < g and g < ref(self), tok_items(g) == old(tok_items(g)))")]},
+           ensures=[("lists-older-than-the-message-are-untouched",
+                     "implies(0 < g and g < ref(self), tok_items(g) == old(tok_items(g)))"),
+                    ("header-and-avps-kept", "self.header.command_flags == old(self.header.command_flags) and "
+                                             "self.header.command_code == old(self.header.command_code) and "
+                                             "self._avps == old(self._avps) and items(self._avps) == old(items(self._avps))")],
+           modifies=["open:self", "*list:Any if len(self._avps) > 0", "*Avp._avps"], props=["C03", "C04"],
+           note="VERIFIED here (C03/C04) against the real body; the checks that do not load this module use the assumed "
+                "variant of specs/family.py, which states the same raises clause and postcondition")
+R.contracts["UndefinedMessage.__post_init__"].frame_ghosts = ["g"]
+R.contracts["UndefinedMessage._assign_attr_values"].frame_ghosts = ["g"]
+R.contracts["assign_attr_from_defs#escape"].frame_ghosts = ["g"]
+# the typed classes that derive from UndefinedMessage run the body above through super().__post_init__: their generated
+# contracts get the open attribute store of the message in their frame
+for _n in family.FAMILY:
+    try:
+        if family._prog.cls(_n.split(".")[0]).is_subclass_of(family._prog.cls("UndefinedMessage")):
+            R.contracts[_n].modifies = list(R.contracts[_n].modifies) + ["open:self"]
+    except KeyError:
+        pass
